@@ -36,6 +36,21 @@ def _dt(us, tzmin=None):
     return base.replace(tzinfo=datetime.timezone.utc).astimezone(datetime.timezone(datetime.timedelta(minutes=tzmin)))
 
 
+class _LabelledStr(str):
+    def __str__(self):
+        return 'LabelledStr(%s)' % str.__str__(self)
+
+    def __repr__(self):
+        return 'LabelledStr(%s)' % str.__repr__(self)
+
+
+def _str_like(text, how):
+    if how == 'enum':
+        import enum
+        return enum.Enum('Mode', {'MEMBER': text}, type=str).MEMBER
+    return _LabelledStr(text)
+
+
 def to_unit(us, unit):
     return us * 1000 if unit == 'ns' else us // UNIT_US[unit]
 
@@ -85,6 +100,10 @@ def gen_prop_value(rng):
     if k < 0.42:
         return ['npbool', rng.random() < 0.5]
     if k < 0.56:
+        if rng.random() < 0.12:
+            # a member of an Enum with a str mix-in (class Mode(str, Enum)), or a str subclass with its own __str__: it *is*
+            # the string it holds, whatever str() makes of it
+            return ['strsub', gen.gen_text(rng), rng.choice(['enum', 'subclass'])]
         return ['str', gen.gen_text(rng)]
     if k < 0.64:
         if rng.random() < 0.25:
@@ -354,6 +373,8 @@ def make_value(nptdms, pv):
         return struct.unpack('<d', bytes.fromhex(pv[1]))[0]
     if k in ('bool', 'str'):
         return pv[1]
+    if k == 'strsub':
+        return _str_like(pv[1], pv[2])
     if k == 'npbool':
         return np.bool_(pv[1])
     if k == 'datetime':
@@ -451,7 +472,7 @@ def expected_prop(pv):
         return 'f64', bytes.fromhex(pv[1])
     if k in ('bool', 'npbool'):
         return 'bool', pv[1]
-    if k == 'str':
+    if k in ('str', 'strsub'):
         return 'str', pv[1]
     if k == 'datetime':
         return 'ts-us', pv[1]
